@@ -42,6 +42,26 @@ NON_MEMBERS = ["", " ", "foo", "detection3d", "base_link ", " base_link", "lidar
                "none_", "v0-41", "v100", "not_available", "default_", "allow", "123", "map2", "None", "null"]
 
 
+# letters whose upper case is plain ASCII although they are not the lower case of any ASCII letter (long s, dotless i, ligatures):
+# a member value spelled with one of them is another string
+_LOOKALIKE = [("s", "\u017f"), ("i", "\u0131"), ("ffi", "\ufb03"), ("ff", "\ufb00"), ("fi", "\ufb01"), ("fl", "\ufb02"), ("st", "\ufb06"), ("ss", "\u00df")]
+
+
+def _lookalikes(value):
+    out = []
+    for host in (value.lower(), value.upper()):
+        low = host.lower()
+        for plain, odd in _LOOKALIKE:
+            start = 0
+            while True:
+                i = low.find(plain, start)
+                if i < 0:
+                    break
+                out.append(host[:i] + odd + host[i + len(plain):])
+                start = i + 1
+    return out
+
+
 def _variants(enum_name, member):
     """spellings that must parse to `member`."""
     v = [("value", member.value)]
@@ -92,7 +112,8 @@ def run_unit(unit, acc):
                 if oe != e:
                     others |= {x.value for x in ocls}
             lowered = {x.value.lower() for x in cls} | {x.name.lower() for x in cls} | set(ALIASES.get(e, {}))
-            for s in NON_MEMBERS + sorted(others):
+            odd = sorted({x for m in cls for x in _lookalikes(m.value) + _lookalikes(m.name)})
+            for s in NON_MEMBERS + sorted(others) + odd:
                 if s.lower() in lowered:
                     continue
                 check_case({"kind": "parse", "enum": e, "parser": pname, "arg": s, "expect": None, "variant": "non-member"}, acc)
